@@ -546,3 +546,226 @@ Proof.
   unfold score, conf_of. cbn [lookup blank_conf bc_offset bc_factor].
   apply orb_true_iff. right. apply andb_true_iff. split; [apply negb_true_iff, Z.eqb_neq | apply Z.leb_le]; lia.
 Qed.
+
+(* ------------------------------------------------------------------------------------------ *)
+(* Providers. *)
+
+Lemma acceptable_in_all_providers s rs i t b : acceptable_at s rs i t b -> In i (all_providers s rs).
+Proof.
+  intros (r & k & Hr & Hi & Hq & _). unfold all_providers. apply in_map_iff.
+  exists r. split; [exact Hi | apply filter_In; split; assumption].
+Qed.
+
+Lemma providers_offered cfgs s rs ord w i :
+  arrival_order s rs ord ->
+  st_win (result_of cfgs s ord) = Some w -> In i (st_providers (result_of cfgs s ord)) ->
+  exists t b, acceptable_at s rs i t b /\ b_header b = b_header (p_bid w).
+Proof.
+  intros Hord Hw Hi. unfold result_of in *.
+  destruct (collect_inv cfgs (forwarded (cutoff s) ord)) as [_ Hs].
+  destruct (Hs w Hw) as (_ & _ & _ & _ & _ & H6).
+  destruct (H6 i Hi) as [b [Hin Hh]].
+  destruct (forwarded_acceptable s rs ord i b Hord Hin) as [t Ht].
+  exists t, b. split; assumption.
+Qed.
+
+Lemma winner_relay_first cfgs s rs ord w :
+  arrival_order s rs ord ->
+  st_win (result_of cfgs s ord) = Some w ->
+  exists r0 rest t, st_providers (result_of cfgs s ord) = r0 :: rest /\ acceptable_at s rs r0 t (p_bid w).
+Proof.
+  intros Hord Hw. unfold result_of in *.
+  destruct (collect_inv cfgs (forwarded (cutoff s) ord)) as [_ Hs].
+  destruct (Hs w Hw) as (_ & _ & _ & _ & (r0 & rest & l1 & l2 & Hp & Hfw & _) & _).
+  destruct (forwarded_acceptable s rs ord r0 (p_bid w) Hord) as [t Ht].
+  { rewrite Hfw. apply in_or_app. right. left. reflexivity. }
+  exists r0, rest, t. split; assumption.
+Qed.
+
+Lemma no_winner_no_providers cfgs fw : st_win (collect cfgs fw) = None -> st_providers (collect cfgs fw) = [].
+Proof. intros Hw. destruct (collect_inv cfgs fw) as [Hn _]. apply (Hn Hw). Qed.
+
+Lemma providers_in_all_providers cfgs s rs ord i :
+  arrival_order s rs ord -> In i (st_providers (result_of cfgs s ord)) -> In i (all_providers s rs).
+Proof.
+  intros Hord Hi. destruct (st_win (result_of cfgs s ord)) as [w|] eqn:Hw.
+  - destruct (providers_offered cfgs s rs ord w i Hord Hw Hi) as (t & b & Ha & _).
+    apply (acceptable_in_all_providers s rs i t b Ha).
+  - unfold result_of in *. rewrite (no_winner_no_providers _ _ Hw) in Hi. destruct Hi.
+Qed.
+
+(* strictly-greater replacement: among equal best scores the first to arrive wins *)
+Lemma first_best_wins cfgs fw w :
+  st_win (collect cfgs fw) = Some w ->
+  exists r0 l1 l2, fw = l1 ++ (r0, p_bid w) :: l2
+    /\ (forall rb, In rb l1 -> score cfgs (snd rb) = 0%Z \/ (score cfgs (snd rb) < p_score w)%Z)
+    /\ (forall rb, In rb l2 -> score cfgs (snd rb) = 0%Z \/ (score cfgs (snd rb) <= p_score w)%Z).
+Proof.
+  intros Hw. destruct (collect_inv cfgs fw) as [_ Hs].
+  destruct (Hs w Hw) as (_ & _ & _ & H4 & (r0 & rest & l1 & l2 & Hp & Hfw & Hl1) & _).
+  exists r0, l1, l2. repeat split; try assumption.
+  intros rb Hin. destruct (Z.eq_dec (score cfgs (snd rb)) 0) as [E | Hnz]; [left; exact E | right].
+  apply H4; [|exact Hnz]. rewrite Hfw. apply in_or_app. right. right. exact Hin.
+Qed.
+
+(* ------------------------------------------------------------------------------------------ *)
+(* Participation: per relay, the last bid handed to the collector, with its own score. *)
+
+Lemma lookup_set_part_same k v l : lookup k (set_part k v l) = Some v.
+Proof.
+  induction l as [|[k' v'] l IH]; cbn [set_part lookup].
+  - rewrite N.eqb_refl. reflexivity.
+  - destruct (k =? k') eqn:E; cbn [lookup]; [rewrite N.eqb_refl; reflexivity | rewrite E; exact IH].
+Qed.
+
+Lemma lookup_set_part_other k k' v l : k' <> k -> lookup k' (set_part k v l) = lookup k' l.
+Proof.
+  intros Hne. induction l as [|[k0 v0] l IH]; cbn [set_part lookup].
+  - apply N.eqb_neq in Hne. rewrite Hne. reflexivity.
+  - destruct (k =? k0) eqn:E; cbn [lookup].
+    + apply N.eqb_eq in E. subst k0. apply N.eqb_neq in Hne. rewrite Hne. reflexivity.
+    + destruct (k' =? k0); [reflexivity | exact IH].
+Qed.
+
+Lemma st_parts_set_bid cfgs st r b :
+  st_parts (set_bid cfgs st (r, b)) =
+  set_part r {| p_score := score cfgs b; p_cat := cat_of cfgs b; p_bid := b |} (st_parts st).
+Proof.
+  unfold set_bid. destruct (score cfgs b =? 0)%Z; [reflexivity|].
+  destruct (st_win st) as [w|]; [|reflexivity].
+  destruct (p_score w <? score cfgs b)%Z; [reflexivity|].
+  destruct (b_header b =? b_header (p_bid w)); reflexivity.
+Qed.
+
+Lemma participation_last cfgs : forall fw i,
+  match lookup i (st_parts (collect cfgs fw)) with
+  | Some p => p_score p = score cfgs (p_bid p) /\ p_cat p = cat_of cfgs (p_bid p)
+              /\ exists l1 l2, fw = l1 ++ (i, p_bid p) :: l2 /\ forall b, ~ In (i, b) l2
+  | None => forall b, ~ In (i, b) fw
+  end.
+Proof.
+  induction fw as [|[r b] l IH] using rev_ind; intros i.
+  - cbn. intros b [].
+  - rewrite collect_snoc, st_parts_set_bid.
+    destruct (N.eq_dec i r) as [-> | Hne].
+    + rewrite lookup_set_part_same. cbn [p_score p_cat p_bid]. repeat split.
+      exists l, []. split; [reflexivity | intros b' []].
+    + rewrite (lookup_set_part_other r i _ _ Hne). specialize (IH i).
+      destruct (lookup i (st_parts (collect cfgs l))) as [p|].
+      * destruct IH as (H1 & H2 & l1 & l2 & Hl & Hno). repeat split; try assumption.
+        exists l1, (l2 ++ [(r, b)]). split; [rewrite Hl, <- app_assoc; reflexivity|].
+        intros b' Hin. apply in_app_or in Hin as [Hin | [Heq | []]]; [apply (Hno b' Hin) | congruence].
+      * intros b' Hin. apply in_app_or in Hin as [Hin | [Heq | []]]; [apply (IH b' Hin) | congruence].
+Qed.
+
+(* ------------------------------------------------------------------------------------------ *)
+(* What the beacon node is served. *)
+
+Lemma served_is_winner m rs st :
+  (forall w, st_win st = Some w -> b_value (p_bid w) <> 0) ->
+  forall x, In x (served m rs st) -> x = option_map (fun w => b_uid (p_bid w)) (st_win st).
+Proof.
+  intros Hv x Hin.
+  assert (Himm : serve_immediate st = option_map (fun w => b_uid (p_bid w)) (st_win st)).
+  { unfold serve_immediate. destruct (st_win st); reflexivity. }
+  assert (Hc : rs <> [] -> serve_cached (auction_cache rs st) = option_map (fun w => b_uid (p_bid w)) (st_win st)).
+  { intros Hne. unfold auction_cache. destruct rs as [|r0 rs']; [contradiction|].
+    destruct (st_win st) as [w|] eqn:Ew; [|reflexivity].
+    cbn [serve_cached option_map]. specialize (Hv w eq_refl).
+    assert (H0 : (0 <? b_value (p_bid w)) = true) by (apply N.ltb_lt; lia).
+    rewrite H0. reflexivity. }
+  destruct rs as [|r0 rs'].
+  - destruct m; cbn [served auction_cache] in Hin.
+    + destruct Hin.
+    + destruct Hin as [<- | []]. exact Himm.
+    + destruct Hin as [<- | [<- | []]]; exact Himm.
+  - assert (Hne : r0 :: rs' <> []) by discriminate. specialize (Hc Hne).
+    destruct m; cbn [served] in Hin.
+    + destruct Hin.
+    + destruct (auction_cache (r0 :: rs') st) eqn:Ea.
+      * unfold auction_cache in Ea. destruct (st_win st); discriminate Ea.
+      * destruct Hin as [<- | []]. exact Hc.
+      * destruct Hin as [<- | []]. exact Hc.
+    + destruct (auction_cache (r0 :: rs') st) eqn:Ea.
+      * unfold auction_cache in Ea. destruct (st_win st); discriminate Ea.
+      * destruct Hin as [<- | [<- | []]]; [exact Himm | exact Hc].
+      * destruct Hin as [<- | [<- | []]]; [exact Himm | exact Hc].
+Qed.
+
+Lemma result_winner_value_nonzero cfgs s rs ord w :
+  arrival_order s rs ord -> st_win (result_of cfgs s ord) = Some w -> b_value (p_bid w) <> 0.
+Proof.
+  intros Hord Hw. destruct (winner_relay_first cfgs s rs ord w Hord Hw) as (r0 & rest & t & _ & Ha).
+  destruct Ha as (r & k & _ & _ & _ & _ & _ & He). apply eligible_iff in He as [Hv _]. exact Hv.
+Qed.
+
+(* the cache entry: the winning bid, or the zero-value dummy *)
+Lemma cache_entry rs st :
+  rs <> [] ->
+  auction_cache rs st = match st_win st with Some w => CBid (p_bid w) | None => CDummy end.
+Proof. intros Hne. destruct rs; [contradiction | reflexivity]. Qed.
+
+(* ------------------------------------------------------------------------------------------ *)
+(* The orders the model and the check use are arrival orders. *)
+
+Lemma insert_by_In {A} (key : A -> N) x y : forall l, In y (insert_by key x l) <-> y = x \/ In y l.
+Proof.
+  induction l as [|z l IH]; cbn [insert_by].
+  - cbn. intuition.
+  - destruct (key x <=? key z); cbn [In]; [intuition|]. rewrite IH. intuition.
+Qed.
+
+Lemma sort_by_In {A} (key : A -> N) y : forall l, In y (sort_by key l) <-> In y l.
+Proof.
+  induction l as [|x l IH]; [reflexivity|].
+  unfold sort_by in *. cbn [fold_right]. rewrite insert_by_In, IH. cbn [In]. intuition.
+Qed.
+
+Lemma by_time_arrival_order s rs : arrival_order s rs (by_time (all_events s rs)).
+Proof. intros e. apply sort_by_In. Qed.
+
+Lemma inserts_In {A} (x : A) : forall l p y, In p (inserts x l) -> (In y p <-> y = x \/ In y l).
+Proof.
+  induction l as [|z l IH]; intros p y Hp; cbn [inserts] in Hp.
+  - destruct Hp as [<- | []]. cbn. intuition.
+  - destruct Hp as [<- | Hp]; [cbn; intuition|].
+    apply in_map_iff in Hp as [q [<- Hq]]. cbn [In]. rewrite (IH q y Hq). intuition.
+Qed.
+
+Lemma perms_In {A} : forall (l p : list A) y, In p (perms l) -> (In y p <-> In y l).
+Proof.
+  induction l as [|x l IH]; intros p y Hp; cbn [perms] in Hp.
+  - destruct Hp as [<- | []]. reflexivity.
+  - apply in_flat_map in Hp as [q [Hq Hp]]. rewrite (inserts_In x q p y Hp), (IH q y Hq). cbn [In]. intuition.
+Qed.
+
+Lemma groups_concat : forall l, concat (groups l) = l /\ Forall (fun g => g <> []) (groups l).
+Proof.
+  induction l as [|e l [IH1 IH2]]; [split; [reflexivity | constructor]|].
+  unfold groups in *. cbn [fold_right].
+  set (gl := fold_right _ [] l) in *.
+  destruct gl as [|g gs].
+  - cbn in IH1. subst l. split; [reflexivity | repeat constructor; discriminate].
+  - destruct g as [|e' g].
+    + inversion IH2 as [|? ? Hne _]. contradiction.
+    + destruct (e_time e =? e_time e')%Z.
+      * split; [cbn [concat app] in *; rewrite <- IH1; reflexivity|].
+        inversion IH2; subst. constructor; [discriminate | assumption].
+      * split; [cbn [concat app] in *; rewrite <- IH1; reflexivity|].
+        constructor; [discriminate | assumption].
+Qed.
+
+Lemma linearizations_In evs ord e : In ord (linearizations evs) -> (In e ord <-> In e evs).
+Proof.
+  unfold linearizations. intros Hord.
+  rewrite <- (sort_by_In (fun e => Z.to_N (e_time e)) e evs). fold (by_time evs).
+  rewrite <- (proj1 (groups_concat (by_time evs))).
+  revert ord Hord. induction (groups (by_time evs)) as [|g gs IH]; intros ord Hord; cbn [fold_right] in Hord.
+  - destruct Hord as [<- | []]. reflexivity.
+  - apply in_flat_map in Hord as [p [Hp Hord]]. apply in_map_iff in Hord as [o' [<- Ho']].
+    cbn [concat]. rewrite !in_app_iff, (perms_In g p e Hp), (IH o' Ho'). reflexivity.
+Qed.
+
+Lemma linearization_arrival_order s rs ord :
+  In ord (linearizations (all_events s rs)) -> arrival_order s rs ord.
+Proof. intros Hord e. apply linearizations_In. exact Hord. Qed.
